@@ -80,6 +80,12 @@ fn bare_to_dim_type(
     let mut found: Option<(BuiltInStyle, &VariableInfo)> = None;
     let q = bare_name.qualify(ctx);
     for (built_in_style, variable_info) in ctx.names.find_name_or_shared_in_parent(bare_name) {
+        // a compact variable of another type is a different variable, e.g. `A$` next to `REDIM A(5)`
+        if built_in_style == BuiltInStyle::Compact
+            && variable_info.expression_type.opt_qualifier() != Some(q)
+        {
+            continue;
+        }
         match &variable_info.redim_info {
             Some(r) => {
                 if r.dimension_count != array_dimensions.len() {
